@@ -16,6 +16,11 @@ inductive Step where
   | readCode | writeCode | writeMeta
   | writeToken                 -- `fn.__globals__[token] = fn`: the variant's self-reference denotes the target
   | call                       -- the thread calls the function while its own probe is active
+  | setInfo                    -- `fn.__ptera_info__ = info` (reached when the variant is not the original code)
+  | dropInfo                   -- `delattr(fn, "__ptera_info__")` (reached when it is)
+  | callFetch                  -- a bystander (its probe is on another function) calls: the code object is read …
+  | callEnter                  -- … and the code it got looks its function's `__ptera_info__` up (raises if absent)
+  | callEnterTolerant          -- … or looks it up with a default
   deriving DecidableEq, Repr, Inhabited
 
 /-- the shared instrumentation state of one function -/
@@ -25,6 +30,7 @@ structure Shared where
   caps : List Nat := []                  -- `captures`, as a multiset
   code : Option (List Nat) := none       -- installed variant: none = original code
   toks : List (List Nat) := []           -- variants whose self-reference denotes the target function
+  info : Bool := false                   -- the function has a `__ptera_info__` attribute
   lockOwner : Option Nat := none
   lockDepth : Nat := 0
   deriving DecidableEq, Repr, Inhabited
@@ -36,6 +42,8 @@ structure Thread where
   tmpCount : Int := 0
   tmpVariant : Option (List Nat) := none
   covered : List Bool := []              -- per call: did the installed code instrument `own`?
+  tmpCode : Option (List Nat) := none    -- the code object a bystander's call is running
+  raised : Bool := false                 -- a call of this thread raised because of the others
   deriving DecidableEq, Repr, Inhabited
 
 structure State where
@@ -76,6 +84,11 @@ def doStep (t : Nat) (sh : Shared) (th : Thread) : Step → Shared × Thread
     (match th.tmpVariant with
      | some v => if sh.toks.contains v then (sh, th) else ({ sh with toks := sh.toks ++ [v] }, th)
      | none => (sh, th))
+  | .setInfo => (if th.tmpVariant.isSome then { sh with info := true } else sh, th)
+  | .dropInfo => (if th.tmpVariant.isNone then { sh with info := false } else sh, th)
+  | .callFetch => (sh, { th with tmpCode := sh.code })
+  | .callEnter => (sh, { th with raised := th.raised || (th.tmpCode.isSome && !sh.info) })
+  | .callEnterTolerant => (sh, th)
   | .call =>
     (sh, { th with covered := th.covered ++ [match sh.code with
                                               | none => false
@@ -125,7 +138,7 @@ def finished (s : State) : Bool := s.threads.all fun th => th.prog.isEmpty
 /-- what the property demands of a finished run: every call was covered, and the function is back
     on its original code with zero counters -/
 def good (s : State) : Bool :=
-  (s.threads.all fun th => th.covered.all id) &&
+  (s.threads.all fun th => th.covered.all id && !th.raised) &&
   (!finished s || (s.sh.code == none && s.sh.count == 0 && s.sh.caps.isEmpty))
 
 /-- the program of a thread: activate, call, deactivate -/
@@ -134,6 +147,12 @@ def program (tool untool : List (List Step)) : List (List Step) :=
 
 def initState (tool untool : List (List Step)) (owns : List (List Nat)) : State :=
   { threads := owns.map fun o => { prog := program tool untool, own := o } }
+
+/-- … with bystanders (an empty capture list): threads whose own probe is on another function and
+    that call the shared function once -/
+def initStateB (tool untool bystander : List (List Step)) (owns : List (List Nat)) : State :=
+  { threads := owns.map fun o =>
+      if o.isEmpty then { prog := bystander, own := [] } else { prog := program tool untool, own := o } }
 
 /-- breadth-first closure of the reachable states (fuel bounds the number of rounds) -/
 def successors (s : State) : List State :=
@@ -167,7 +186,7 @@ def mergeRelease (l : List (List Step)) : List (List Step) :=
 
 /-- does the step read or write the shared instrumentation state of the function? -/
 def touchesShared : Step → Bool
-  | .acquire | .release | .call | .lookupVariant => false
+  | .acquire | .release | .call | .lookupVariant | .callFetch | .callEnter | .callEnterTolerant => false
   | _ => true
 
 /-- lock discipline of one program: every shared access happens while the lock is held (depth ≥ 1),
